@@ -134,9 +134,13 @@ class C19(Prop):
             if not (b and b.startswith("Ok") and b.endswith(want)) or b != n or (nm not in win and a != b):
                 c.failing.append({"case": {"name": nm, "number": i + 1}, "impl": {"short": a, "sig": b, "num": n},
                                   "clause": "C19_spellings_agree"})
+        wtab = dict((translate.TABLES.get("signals") or {}).get("windows") or [])
         for w in win:
-            if not parse.get(w, "").startswith("Ok"):
-                c.failing.append({"case": {"windows_name": w}, "impl": parse.get(w), "clause": "C19_windows_precedence"})
+            got = parse.get(w, "")
+            want_sig = wtab.get(w)
+            if not got.startswith("Ok") or (want_sig and not got.startswith("Ok:" + want_sig + " ")):
+                c.failing.append({"case": {"windows_name": w}, "impl": got, "expected": want_sig,
+                                  "clause": "C19_windows_precedence: a Windows control name did not parse to its Windows meaning"})
         for t in rows:
             m = re.match(r"try=(\S+) from=(.*) custom=(\S+) d=(\S+) n=(\S+) reparse=(.*)$", t["obs"])
             if not m:
